@@ -3,7 +3,7 @@ import itertools
 from lib.framework import Check
 from props.C16 import coqchk_extra
 
-KINDS = ("vec", "arr", "list", "map", "carr", "il", "fv")
+KINDS = ("vec", "arr", "list", "map", "carr", "il", "fv", "deq", "set", "str")
 MAXN = 6
 
 
@@ -11,8 +11,10 @@ def valid(adaptor, kind, mode, n):
     """the combinations harness/iter_driver.cpp implements (the others do not exist in C++: a built-in array or an
     initializer list cannot be an rvalue container object, `enumerate({})` cannot deduce its element type, an lvalue
     std::initializer_list has no rbegin())"""
-    if kind in ("vec", "list", "map", "fv"):
+    if kind in ("vec", "list", "map", "fv", "deq"):
         return mode in "lcrmksq"
+    if kind in ("set", "str"):
+        return mode in "crmksq"
     if kind == "arr":
         return n <= MAXN and mode in "lcrmksq"
     if kind == "carr":
@@ -66,7 +68,7 @@ class C20(Check):
                   "the reuse and multi-container cases only; aliasing is modelled as 'the write lands at the visited position' and observed as address identity. "
                   "The correspondence is bounded-exhaustive over kinds/modes/lengths with sampled element values, not proved")
     rule = ("all (adaptor, container kind, value category, length) combinations that exist in C++: adaptor in {enumerate, reverse}, kind in {vector, "
-            "std::array, list, map, built-in array, initializer_list, fixed_vector}, category in {lvalue with write-through, const lvalue, temporary "
+            "std::array, list, map, built-in array, initializer_list, fixed_vector, deque, set, std::string}, category in {lvalue with write-through, const lvalue, temporary "
             "created inside the for statement, std::move of a local, CONST temporary returned by a function, static_cast<const T&&> of a temporary, "
             "std::move of a const local}, length 0..5 (0..6 thorough), each with several element lists (ascending, "
             "all-equal, random distinct from VERIF_SEED); plus REUSE scenarios on vector/list/map/fixed_vector, lengths 0..5(6): one adaptor object iterated "
@@ -82,7 +84,8 @@ class C20(Check):
             "the old value returned by it++, a copied iterator continued next to the original, std::for_each (enumerate iterator: nothing beyond "
             "the operations it declares), for reverse also ==, std::distance, std::next, copying out; ELEMENT TYPES constructible from their own container (std::any, a recursive "
             "Value(vector<Value>), a type with an initializer_list-of-itself constructor) over lvalue / temporary vectors and lists and braced "
-            "lists, lengths 0..4; a case is non-trivial when the range has at least one element; distinct = distinct case line")
+            "lists, lengths 0..4, and move-only elements (unique_ptr: moved out and replaced through the adaptor); enumerate(reverse(c)); "
+            "const adaptor objects (the forms whose begin()/end() are const); const iterator / const proxy accessors; a case is non-trivial when the range has at least one element; distinct = distinct case line")
     modelled_note = ("modelled, not verified: overload resolution, lifetime of temporaries, the underlying containers' iterators and "
                      "std::reverse_iterator (a position / a base position in the model)")
 
@@ -95,15 +98,20 @@ class C20(Check):
                     for n in range(0, maxn + 1):
                         if not valid(ad, kind, mode, n):
                             continue
-                        lists = [list(range(10, 10 + n)), [7] * n, list(range(n, 0, -1))]
-                        for _ in range(reps):
-                            lists.append(rng.sample(range(-50, 1000), n))
+                        if kind == "set":       # a std::set holds its elements ascending and distinct
+                            lists = [list(range(10, 10 + n))] + [sorted(rng.sample(range(-50, 1000), n)) for _ in range(reps)]
+                        elif kind == "str":     # character codes
+                            lists = [list(range(97, 97 + n)), [122] * n] + [[rng.randint(32, 126) for _ in range(n)] for _ in range(reps)]
+                        else:
+                            lists = [list(range(10, 10 + n)), [7] * n, list(range(n, 0, -1))]
+                            for _ in range(reps):
+                                lists.append(rng.sample(range(-50, 1000), n))
                         for l in lists:
                             yield "%s %s %s %s" % (ad, kind, mode, wl(l)), "exh-%s-%s" % (ad, mode)
         # the SAME adaptor object / container used more than once (state that would survive between uses)
-        for sc in ("en2", "rv2", "enen", "enrv", "enmod", "rvmod", "enbe", "rvbe"):
+        for sc in ("en2", "rv2", "enen", "enrv", "enmod", "rvmod", "enbe", "rvbe", "nest", "cad"):
             for kind in ("vec", "list", "map", "fv"):
-                for mode in ("lr" if sc in ("en2", "rv2", "enbe", "rvbe") else "l"):
+                for mode in ("lr" if sc in ("en2", "rv2", "enbe", "rvbe", "nest", "cad") else "l"):
                     for n in range(0, maxn + 1):
                         lists = [list(range(10, 10 + n)), [7] * n]
                         for _ in range(max(1, reps // 2)):
@@ -145,8 +153,10 @@ class C20(Check):
         # ELEMENT TYPES constructible from their own container / initializer list (std::any, a recursive Value, a type with an
         # initializer_list-of-itself constructor): lvalue, temporary and braced-list ranges, lengths 0..4
         for ad in ("en", "rv"):
-            for ty in ("any", "val", "ilt"):
+            for ty in ("any", "val", "ilt", "up"):
                 for kind, modes in (("vec", "lr"), ("list", "lr"), ("il", "r")):
+                    if ty == "up" and kind == "il":
+                        continue
                     for mode in modes:
                         for n in range(1 if kind == "il" else 0, 5):
                             for l in [list(range(10, 10 + n))] + [rng.sample(range(0, 1000), n) for _ in range(1 if tier == "quick" else 5)]:
